@@ -56,10 +56,10 @@ type Partial struct {
 	Flags       map[string]bool   `json:"flags"`
 	Samples     []json.RawMessage `json:"samples"`
 	Violations  []Violation       `json:"violations"`
-	Known       map[string]int64  `json:"known"`       // finding id -> matches
-	KnownWhat   map[string]string `json:"known_what"`  // finding id -> first description
-	Exhaustive  bool              `json:"exhaustive"`  // false if a cap was hit
-	Caps        []string          `json:"caps"`        // which caps
+	Known       map[string]int64  `json:"known"`      // finding id -> matches
+	KnownWhat   map[string]string `json:"known_what"` // finding id -> first description
+	Exhaustive  bool              `json:"exhaustive"` // false if a cap was hit
+	Caps        []string          `json:"caps"`       // which caps
 	Notes       []string          `json:"notes"`
 	StatesFile  string            `json:"states_file"` // binary uint64 hashes
 	NontrivFile string            `json:"nontriv_file"`
